@@ -241,6 +241,59 @@ class Gen:
         return ["sv", hx(self.name()), r.randrange(0, 9), hx(self.string(8)), self.hint(n, False), flds]
 
 
+def children(t):
+    """(container list, index) slots holding the value-position children of a node"""
+    k = t[0]
+    if k == "some":
+        return [(t, 1)]
+    if k == "ns":
+        return [(t, 2)]
+    if k == "nv":
+        return [(t, 4)]
+    if k in ("seq", "tup"):
+        return [(t[2], i) for i in range(len(t[2]))]
+    if k == "ts":
+        return [(t[3], i) for i in range(len(t[3]))]
+    if k == "tv":
+        return [(t[5], i) for i in range(len(t[5]))]
+    if k == "map":
+        return [(kv, 1) for kv in t[2]]
+    if k == "st":
+        return [(kv, 1) for kv in t[3]]
+    if k == "sv":
+        return [(kv, 1) for kv in t[5]]
+    return []
+
+
+def subtrees(t):
+    """every value-position subtree (the tree itself first)"""
+    out = [t]
+    for holder, idx in children(t):
+        out.extend(subtrees(holder[idx]))
+    if t[0] == "map":
+        out.extend(kv[0] for kv in t[2])
+    return out
+
+
+def inject_bad_key(g, t):
+    """Replace a random value position of the tree by a map that has an unacceptable key (at a
+    random entry position, so that output may already have been produced when it is met)."""
+    r = g.rng
+    root = [t]
+    holder, idx = root, 0
+    while True:
+        ch = children(holder[idx])
+        if not ch or r.random() < 0.35:
+            break
+        holder, idx = r.choice(ch)
+    x = holder[idx]
+    before = [[g.good_key(), g.leaf()] for _ in range(r.choice([0, 0, 1, 2]))]
+    after = [[g.good_key(), g.leaf()] for _ in range(r.choice([0, 0, 1]))]
+    n = len(before) + len(after) + 1
+    holder[idx] = ["map", r.choice([None, n, n]), before + [[g.bad_key(), x]] + after]
+    return root[0]
+
+
 def nonfinite32(bits):
     return (bits >> 23) & 0xFF == 0xFF
 
@@ -309,8 +362,8 @@ def size(t):
 
 # ---------------------------------------------------------------- Coq rendering
 def cb(hexs):
-    b = bytes.fromhex(hexs)
-    return "[" + ";".join(str(x) for x in b) + "]"
+    """a byte list, spelled with the constants x00..xff of Ser/SerdeExec.v"""
+    return "[" + ";".join("x" + hexs[i:i + 2] for i in range(0, len(hexs), 2)) + "]"
 
 
 def cbytes(b):
